@@ -128,9 +128,19 @@ type H struct {
 	FilesSeen map[string]bool // data file names ever seen (layout classification)
 }
 
+// InstanceCounter: when set, every history of the process gets its own server instance number (and address),
+// so that one case can run several servers side by side.
+var InstanceCounter bool
+var nextInstance int
+
 func New(c *ev.Case, prop int, knobs map[string]string, fail func(format string, a ...any)) *H {
+	inst := 0
+	if InstanceCounter {
+		inst = nextInstance % 4
+		nextInstance++
+	}
 	h := &H{St: model.NewStore(), C: c, Fail: fail, DB: "db0", Prop: prop, CellGens: map[string]map[int]bool{}, Reorgs: map[string]int{}, Visible: map[string]bool{}, FilesSeen: map[string]bool{}}
-	h.Srv = bb.NewServer(bb.Options{Prop: prop, Knobs: knobs})
+	h.Srv = bb.NewServer(bb.Options{Prop: prop, Instance: inst, Knobs: knobs})
 	h.Srv.MustStart()
 	h.Srv.MustExec("", "create database "+h.DB)
 	c.Op(Op{Kind: "start"})
